@@ -1,12 +1,605 @@
-//! C03 - not implemented yet
-use crate::common::Report;
+//! C03 - a party's view reveals nothing beyond its own inputs and outputs.
+//! Exhaustive enumeration of the random-tape space of the real compiled graph with the PRF idealised as a
+//! table of independent uniform entries (one per (key, counter, type)), three-party execution under E1.
+use crate::common::{hash_bytes, Report};
+use crate::exec::{new_eval, run_three, Oracle, PVal, Plan};
+use crate::mpcx::{self, Owner};
+use crate::vals;
+use ciphercore_base::data_types::{array_type, scalar_type, Type, BIT, UINT8};
+use ciphercore_base::data_values::Value;
+use ciphercore_base::graphs::{create_context, Context, Graph, Node, Operation, SliceElement};
+use ciphercore_base::inline::inline_ops::InlineMode;
+use rayon::prelude::*;
+use serde_json::{json, Value as J};
+use std::collections::{BTreeMap, HashMap, HashSet};
 
-pub fn run(_r: &Report) -> i32 {
-    println!("MACHINERY-ERROR property=C03 check not implemented");
-    2
+type EntryKey = (Vec<u8>, u64, String);
+
+fn key_label(party: usize, idx: usize) -> Vec<u8> {
+    let mut b = vec![0xEEu8; 16];
+    b[0] = party as u8 + 1;
+    b[1] = (idx & 0xFF) as u8;
+    b[2] = (idx >> 8) as u8;
+    b
 }
 
-pub fn replay(_r: &Report, _rec: &serde_json::Value) -> i32 {
-    println!("MACHINERY-ERROR property=C03 replay not implemented");
-    2
+/// Scripted randomness: Random key nodes get distinct labels per (party, node); PRF outputs come from a table.
+struct Scripted<'a> {
+    table: &'a HashMap<EntryKey, Value>,
+    /// discovery: (entry, party, node index)
+    record: Option<Vec<(EntryKey, usize, usize)>>,
+    unsupported: bool,
+}
+
+impl<'a> Oracle for Scripted<'a> {
+    fn random(&mut self, party: usize, idx: usize, t: &Type) -> Option<Value> {
+        if *t == array_type(vec![128], BIT) {
+            Some(Value::from_bytes(key_label(party, idx)))
+        } else {
+            self.unsupported = true;
+            Some(Value::zero_of_type(t.clone()))
+        }
+    }
+    fn prf(&mut self, party: usize, idx: usize, key: &[u8], iv: u64, t: &Type) -> Option<Value> {
+        let ek = (key.to_vec(), iv, format!("{}", t));
+        if let Some(r) = self.record.as_mut() {
+            r.push((ek.clone(), party, idx));
+        }
+        Some(self.table.get(&ek).cloned().unwrap_or_else(|| Value::zero_of_type(t.clone())))
+    }
+    fn perm_prf(&mut self, _p: usize, _i: usize, _k: &[u8], _iv: u64, _n: u64) -> Option<Value> {
+        self.unsupported = true;
+        None
+    }
+    fn random_perm(&mut self, _p: usize, _i: usize, _n: u64) -> Option<Value> {
+        self.unsupported = true;
+        None
+    }
+}
+
+/// all values of a bit / u8 scalar or small array type
+fn domain(t: &Type) -> Option<Vec<Value>> {
+    match t {
+        Type::Scalar(st) | Type::Array(_, st) => {
+            let n = vals::num_elems(t);
+            let bits = vals::st_bits(st) as usize * n;
+            if bits > 8 {
+                return None;
+            }
+            let per = 1u128 << vals::st_bits(st);
+            let total = 1usize << bits;
+            Some(
+                (0..total)
+                    .map(|m| {
+                        let mut e = vec![];
+                        let mut mm = m as u128;
+                        for _ in 0..n {
+                            e.push(mm % per);
+                            mm /= per;
+                        }
+                        vals::arr_value(&e, st)
+                    })
+                    .collect(),
+            )
+        }
+        _ => None,
+    }
+}
+
+fn view_hash(view: &[PVal]) -> u128 {
+    let mut buf: Vec<u8> = Vec::with_capacity(view.len() * 8);
+    for (i, pv) in view.iter().enumerate() {
+        buf.extend_from_slice(&(i as u32).to_le_bytes());
+        match pv.val() {
+            Some(v) => vals::key(&v, &mut buf),
+            None => buf.push(0xFD),
+        }
+    }
+    let h1 = hash_bytes(&buf);
+    buf.push(0x77);
+    let h2 = hash_bytes(&buf);
+    ((h1 as u128) << 64) | h2 as u128
+}
+
+pub struct Family {
+    pub name: &'static str,
+    pub build: fn(&Graph) -> ciphercore_base::errors::Result<Node>,
+    pub n_inputs: usize,
+}
+
+fn in_bit(g: &Graph) -> ciphercore_base::errors::Result<Node> {
+    g.input(scalar_type(BIT))
+}
+fn in_bit2(g: &Graph) -> ciphercore_base::errors::Result<Node> {
+    g.input(array_type(vec![2], BIT))
+}
+
+fn families(thorough: bool) -> Vec<Family> {
+    let mut v: Vec<Family> = vec![
+        Family { name: "x", n_inputs: 1, build: |g| in_bit(g) },
+        Family { name: "x+y", n_inputs: 2, build: |g| in_bit(g)?.add(in_bit(g)?) },
+        Family { name: "x*y", n_inputs: 2, build: |g| in_bit(g)?.multiply(in_bit(g)?) },
+        Family { name: "x*x", n_inputs: 1, build: |g| { let x = in_bit(g)?; x.multiply(x.clone()) } },
+        Family { name: "(x*y)+z", n_inputs: 3, build: |g| in_bit(g)?.multiply(in_bit(g)?)?.add(in_bit(g)?) },
+        Family { name: "(x*y)*z", n_inputs: 3, build: |g| in_bit(g)?.multiply(in_bit(g)?)?.multiply(in_bit(g)?) },
+        Family { name: "x*y+x*z", n_inputs: 3, build: |g| { let x = in_bit(g)?; let y = in_bit(g)?; let z = in_bit(g)?; x.multiply(y)?.add(x.multiply(z)?) } },
+    ];
+    if thorough {
+        v.push(Family { name: "dot(x2,y2)", n_inputs: 2, build: |g| in_bit2(g)?.dot(in_bit2(g)?) });
+        v.push(Family { name: "(x2*y2)[0]", n_inputs: 2, build: |g| in_bit2(g)?.multiply(in_bit2(g)?)?.get_slice(vec![SliceElement::SingleIndex(0)]) });
+        v.push(Family { name: "sum(x2*y2)", n_inputs: 2, build: |g| in_bit2(g)?.multiply(in_bit2(g)?)?.sum(vec![0]) });
+        v.push(Family { name: "x2*y2 (array out)", n_inputs: 2, build: |g| in_bit2(g)?.multiply(in_bit2(g)?) });
+    }
+    v
+}
+
+/// 8-bit linear family (one mask byte per message)
+fn families_u8() -> Vec<Family> {
+    fn in8(g: &Graph) -> ciphercore_base::errors::Result<Node> {
+        g.input(scalar_type(UINT8))
+    }
+    vec![
+        Family { name: "u8:x", n_inputs: 1, build: |g| in8(g) },
+        Family { name: "u8:x+y", n_inputs: 2, build: |g| in8(g)?.add(in8(g)?) },
+        Family { name: "u8:x-y", n_inputs: 2, build: |g| in8(g)?.subtract(in8(g)?) },
+    ]
+}
+
+fn build_ctx(f: &Family) -> Context {
+    let c = create_context().unwrap();
+    let g = c.create_graph().unwrap();
+    let o = (f.build)(&g).unwrap();
+    o.set_as_output().unwrap();
+    g.finalize().unwrap();
+    c.set_main_graph(g).unwrap();
+    c.finalize().unwrap();
+    c
+}
+
+struct Outcome {
+    executions: u64,
+    tapes: u64,
+    real_entries: usize,
+    junk_entries_enumerated: usize,
+    leak: Option<(usize, String)>,
+    skipped: Option<String>,
+    groups_compared: u64,
+    distinct_views: u64,
+}
+
+/// Executes every (tape, input) combination once and compares, for each observer, the view multisets.
+/// `fixed_known`: if Some(values), entries computable by the observer are not enumerated but fixed to each of these
+/// byte patterns in turn (sound: privacy must hold for every value of the observer's own randomness) - then one
+/// observer at a time.
+fn analyse(ctx: &Context, owners: &[Owner], outs: &[u8], cap_bits: u32, input_alphabet: Option<&[u128]>, observers: &[usize], fix_known: Option<&[u8]>) -> Outcome {
+    let mut oc = Outcome { executions: 0, tapes: 0, real_entries: 0, junk_entries_enumerated: 0, leak: None, skipped: None, groups_compared: 0, distinct_views: 0 };
+    let compiled = match mpcx::compile(ctx, owners, outs, &InlineMode::Simple) {
+        Ok(c) => c,
+        Err(e) => {
+            oc.skipped = Some(format!("compile: {}", e));
+            return oc;
+        }
+    };
+    let plan = Plan::of_context(&compiled).unwrap();
+    let types = mpcx::input_types(ctx);
+    // ---- input assignments ----
+    let doms: Vec<Vec<Value>> = types
+        .iter()
+        .map(|t| match input_alphabet {
+            Some(a) => a.iter().map(|x| vals::arr_value(&[*x], &t.get_scalar_type())).collect(),
+            None => domain(t).unwrap(),
+        })
+        .collect();
+    // shares of Shared inputs are part of the tape: (s0, s1) enumerated over the input's domain (bit family only)
+    let shared_idx: Vec<usize> = (0..types.len()).filter(|i| owners[*i] == Owner::Shared).collect();
+    if input_alphabet.is_some() && !shared_idx.is_empty() {
+        oc.skipped = Some("shared inputs not enumerated in the 8-bit family".into());
+        return oc;
+    }
+    // ---- discovery run ----
+    let empty = HashMap::new();
+    let mut disc = Scripted { table: &empty, record: Some(vec![]), unsupported: false };
+    let zero_inputs: Vec<Value> = types.iter().map(|t| Value::zero_of_type(t.clone())).collect();
+    let pi = mpcx::party_inputs(&types, owners, &zero_inputs, &mut || 0, &mut || 0);
+    let mut evs = [new_eval(1), new_eval(2), new_eval(3)];
+    let _ = run_three(&plan, &pi, &mut evs, &mut disc);
+    if disc.unsupported {
+        oc.skipped = Some("protocol draws randomness this check does not script (non-key Random / permutations)".into());
+        return oc;
+    }
+    let rec = disc.record.take().unwrap();
+    let mut users: BTreeMap<EntryKey, HashSet<usize>> = BTreeMap::new();
+    let mut entry_nodes: BTreeMap<EntryKey, Vec<(usize, usize)>> = BTreeMap::new();
+    for (ek, p, idx) in rec {
+        users.entry(ek.clone()).or_default().insert(p);
+        entry_nodes.entry(ek).or_default().push((p, idx));
+    }
+    // junk-key entries of a party that statically reach a Send from that party: enumerated too (empty on a correct tree)
+    let mut tainted_entries: HashSet<EntryKey> = HashSet::new();
+    for p in 0..3 {
+        let mut taint: Vec<HashSet<EntryKey>> = vec![HashSet::new(); plan.nodes.len()];
+        for (i, pn) in plan.nodes.iter().enumerate() {
+            let mut s: HashSet<EntryKey> = HashSet::new();
+            for d in pn.deps.iter() {
+                for e in taint[*d].iter() {
+                    s.insert(e.clone());
+                }
+            }
+            for (ek, u) in users.iter() {
+                if u.len() == 1 && entry_nodes[ek].contains(&(p, i)) {
+                    s.insert(ek.clone());
+                }
+            }
+            for (snd, _rcv) in pn.sends.iter() {
+                if *snd == p {
+                    for e in s.iter() {
+                        tainted_entries.insert(e.clone());
+                    }
+                }
+            }
+            // after a Send to p the value is the sender's: its taint for p's private junk is cleared
+            if pn.sends.iter().any(|(_, rcv)| *rcv == p) {
+                s.clear();
+            }
+            taint[i] = s;
+        }
+    }
+    let mut enumerated: Vec<(EntryKey, Vec<Value>, HashSet<usize>)> = vec![];
+    for (ek, u) in users.iter() {
+        let is_real = u.len() >= 2;
+        if is_real || tainted_entries.contains(ek) {
+            // the type is recoverable from a node that uses the entry
+            let (_, idx) = entry_nodes[ek][0];
+            let t = plan.nodes[idx].ty.clone();
+            let d = match domain(&t) {
+                Some(d) => d,
+                None => {
+                    oc.skipped = Some(format!("PRF entry of type {} too wide to enumerate", t));
+                    return oc;
+                }
+            };
+            if is_real {
+                oc.real_entries += 1;
+            } else {
+                oc.junk_entries_enumerated += 1;
+            }
+            enumerated.push((ek.clone(), d, u.clone()));
+        }
+    }
+    for &obs in observers {
+        // entries the observer can compute itself
+        let (known, unknown): (Vec<_>, Vec<_>) = enumerated.iter().cloned().partition(|e| fix_known.is_some() && e.2.contains(&obs));
+        let known_settings: Vec<Option<u8>> = match fix_known {
+            Some(v) => v.iter().map(|b| Some(*b)).collect(),
+            None => vec![None],
+        };
+        let mut bits = 0f64;
+        for e in unknown.iter() {
+            bits += (e.1.len() as f64).log2();
+        }
+        for _ in shared_idx.iter() {
+            bits += 2.0 * (doms[0].len() as f64).log2();
+        }
+        if bits > cap_bits as f64 {
+            oc.skipped = Some(format!("tape space 2^{:.0} above the cap 2^{}", bits, cap_bits));
+            return oc;
+        }
+        for ks in known_settings.iter() {
+            // per input assignment: multiset of views
+            let n_in = types.len();
+            let mut in_idx = vec![0usize; n_in];
+            let mut results: Vec<(Vec<usize>, Option<Vec<u8>>, HashMap<u128, u32>)> = vec![];
+            loop {
+                let plain: Vec<Value> = (0..n_in).map(|i| doms[i][in_idx[i]].clone()).collect();
+                let mut multiset: HashMap<u128, u32> = HashMap::new();
+                let mut obs_out: Option<Vec<u8>> = None;
+                // enumerate tapes
+                let mut t_idx = vec![0usize; unknown.len()];
+                let mut sh_idx = vec![0usize; shared_idx.len() * 2];
+                loop {
+                    let mut table: HashMap<EntryKey, Value> = HashMap::new();
+                    for (j, e) in unknown.iter().enumerate() {
+                        table.insert(e.0.clone(), e.1[t_idx[j]].clone());
+                    }
+                    if let Some(b) = ks {
+                        for (j, e) in known.iter().enumerate() {
+                            let bb = b.wrapping_mul(j as u8 * 2 + 1).wrapping_add(j as u8 * 29);
+                            let d = &e.1;
+                            table.insert(e.0.clone(), d[bb as usize % d.len()].clone());
+                        }
+                    }
+                    // party inputs with scripted shares
+                    let mut pi: [Vec<Value>; 3] = [vec![], vec![], vec![]];
+                    for i in 0..n_in {
+                        match owners[i] {
+                            Owner::Public => {
+                                for p in 0..3 {
+                                    pi[p].push(plain[i].clone());
+                                }
+                            }
+                            Owner::P(q) => {
+                                for p in 0..3 {
+                                    pi[p].push(if p == q as usize { plain[i].clone() } else { Value::zero_of_type(types[i].clone()) });
+                                }
+                            }
+                            Owner::Shared => {
+                                let k = shared_idx.iter().position(|x| *x == i).unwrap();
+                                let s0 = doms[i][sh_idx[2 * k]].clone();
+                                let s1 = doms[i][sh_idx[2 * k + 1]].clone();
+                                // s2 = x - s0 - s1
+                                let t = &types[i];
+                                let st = t.get_scalar_type();
+                                let m = vals::st_mask(&st);
+                                let xe = vals::arr_elems(&plain[i], t).unwrap();
+                                let a = vals::arr_elems(&s0, t).unwrap();
+                                let b = vals::arr_elems(&s1, t).unwrap();
+                                let s2e: Vec<u128> = (0..xe.len()).map(|j| xe[j].wrapping_sub(a[j]).wrapping_sub(b[j]) & m).collect();
+                                let s = [s0, s1, vals::arr_value(&s2e, &st)];
+                                for p in 0..3 {
+                                    let slots: Vec<Value> = (0..3).map(|kk| if kk == p || kk == (p + 1) % 3 { s[kk].clone() } else { Value::zero_of_type(t.clone()) }).collect();
+                                    pi[p].push(Value::from_vector(slots));
+                                }
+                            }
+                        }
+                    }
+                    let mut oracle = Scripted { table: &table, record: None, unsupported: false };
+                    let mut evs = [new_eval(1), new_eval(2), new_eval(3)];
+                    let run = run_three(&plan, &pi, &mut evs, &mut oracle);
+                    oc.executions += 1;
+                    *multiset.entry(view_hash(&run.vals[obs])).or_insert(0) += 1;
+                    if obs_out.is_none() {
+                        let mut k = vec![];
+                        if outs.contains(&(obs as u8)) {
+                            match run.vals[obs][plan.output].val() {
+                                Some(v) => vals::key(&v, &mut k),
+                                None => k.push(0xFD),
+                            }
+                        }
+                        obs_out = Some(k);
+                    }
+                    // next tape
+                    let mut carry = true;
+                    for j in 0..t_idx.len() {
+                        if carry {
+                            t_idx[j] += 1;
+                            if t_idx[j] == unknown[j].1.len() {
+                                t_idx[j] = 0;
+                            } else {
+                                carry = false;
+                            }
+                        }
+                    }
+                    if carry {
+                        for j in 0..sh_idx.len() {
+                            if carry {
+                                sh_idx[j] += 1;
+                                if sh_idx[j] == doms[shared_idx[j / 2]].len() {
+                                    sh_idx[j] = 0;
+                                } else {
+                                    carry = false;
+                                }
+                            }
+                        }
+                    }
+                    if carry {
+                        break;
+                    }
+                }
+                oc.tapes = multiset.values().map(|c| *c as u64).sum();
+                oc.distinct_views += multiset.len() as u64;
+                results.push((in_idx.clone(), obs_out, multiset));
+                // next input assignment
+                let mut carry = true;
+                for i in 0..n_in {
+                    if carry {
+                        in_idx[i] += 1;
+                        if in_idx[i] == doms[i].len() {
+                            in_idx[i] = 0;
+                        } else {
+                            carry = false;
+                        }
+                    }
+                }
+                if carry {
+                    break;
+                }
+            }
+            // compare: same own inputs (owned by observer or public) and same own output => same view multiset
+            let own: Vec<usize> = (0..n_in).filter(|i| owners[*i] == Owner::P(obs as u8) || owners[*i] == Owner::Public).collect();
+            for a in 0..results.len() {
+                for b in (a + 1)..results.len() {
+                    if own.iter().all(|i| results[a].0[*i] == results[b].0[*i]) && results[a].1 == results[b].1 {
+                        oc.groups_compared += 1;
+                        if results[a].2 != results[b].2 && oc.leak.is_none() {
+                            oc.leak = Some((obs, format!(
+                                "observer {}: inputs {:?} and {:?} (indices into each input's domain) give the same own inputs/output but different view distributions over {} tapes ({} vs {} distinct views)",
+                                obs, results[a].0, results[b].0, oc.tapes, results[a].2.len(), results[b].2.len())));
+                        }
+                    }
+                }
+            }
+        }
+    }
+    oc
+}
+
+fn owner_subset(n: usize, thorough: bool) -> Vec<Vec<Owner>> {
+    let all = mpcx::owner_vectors(n);
+    if n <= 2 || thorough {
+        if n == 3 && thorough {
+            // 3 inputs: vectors with at most one repeated party owner + a covering set
+            return all.into_iter().filter(|v| { let mut c = [0; 5]; for o in v { c[Owner::ALL.iter().position(|x| x == o).unwrap()] += 1; } c.iter().all(|k| *k <= 2) && c[4] <= 1 }).collect();
+        }
+        return all;
+    }
+    use Owner::*;
+    vec![vec![P(0), P(1), P(2)], vec![P(1), P(1), P(0)], vec![P(2), Public, P(0)], vec![Shared, P(0), P(1)], vec![P(0), P(0), P(0)], vec![P(2), P(1), Shared]]
+}
+
+pub fn run(r: &Report) -> i32 {
+    let thorough = r.tier.thorough();
+    let cap = if thorough { 22 } else { 16 };
+    let mut tasks: Vec<(usize, bool, Vec<Owner>, Vec<u8>)> = vec![];
+    let fams = families(thorough);
+    let fams8 = families_u8();
+    for (fi, f) in fams.iter().enumerate() {
+        for ov in owner_subset(f.n_inputs, thorough) {
+            for outs in mpcx::output_subsets() {
+                tasks.push((fi, false, ov.clone(), outs));
+            }
+        }
+    }
+    for (fi, f) in fams8.iter().enumerate() {
+        for ov in mpcx::owner_vectors(f.n_inputs) {
+            if ov.contains(&Owner::Shared) {
+                continue;
+            }
+            for outs in if thorough { mpcx::output_subsets() } else { vec![vec![], vec![0], vec![1, 2]] } {
+                tasks.push((fi, true, ov.clone(), outs));
+            }
+        }
+    }
+    r.count("configurations", tasks.len() as u64);
+    let outcomes: Vec<Outcome> = tasks
+        .par_iter()
+        .map(|(fi, is8, ov, outs)| {
+            if *is8 {
+                let ctx = build_ctx(&fams8[*fi]);
+                let alpha: Vec<u128> = if thorough { vec![0, 1, 127, 128, 255] } else { vec![0, 1, 200] };
+                analyse(&ctx, ov, outs, cap, Some(&alpha), &[0, 1, 2], Some(&[0x00, 0x5B, 0xFF]))
+            } else {
+                let ctx = build_ctx(&fams[*fi]);
+                analyse(&ctx, ov, outs, cap, None, &[0, 1, 2], None)
+            }
+        })
+        .collect();
+    for (t, oc) in tasks.iter().zip(outcomes.iter()) {
+        let name = if t.1 { fams8[t.0].name } else { fams[t.0].name };
+        r.count("evaluations", oc.executions);
+        r.count("states", oc.executions);
+        r.count("transitions", oc.executions * 3);
+        r.count("view_groups_compared", oc.groups_compared);
+        r.count("distinct_views_total", oc.distinct_views);
+        if let Some(s) = &oc.skipped {
+            r.count("configurations_skipped", 1);
+            if s.contains("cap") {
+                r.cap_hit(&format!("{} owners {:?} outs {:?}: {}", name, t.2.iter().map(|o| o.name()).collect::<Vec<_>>(), t.3, s));
+            }
+            continue;
+        }
+        r.count("configurations_analysed", 1);
+        if oc.real_entries > 0 {
+            r.count("configurations_with_masks", 1);
+        }
+        if oc.junk_entries_enumerated > 0 {
+            r.count("configurations_with_sender_private_randomness", 1);
+        }
+        r.distinct_str(&format!("{}{:?}{:?}", name, t.2, t.3));
+        if let Some((obs, m)) = &oc.leak {
+            r.violation(
+                &format!("C03:{}:leak", name),
+                &format!("{} owners {:?} outs {:?}: {}", name, t.2.iter().map(|o| o.name()).collect::<Vec<_>>(), t.3, m),
+                json!({"family": name, "u8": t.1, "owners": super::c01::owners_json(&t.2), "outs": t.3, "observer": obs}),
+            );
+        }
+        if r.want_sample() && oc.real_entries > 3 {
+            r.sample(json!({"family": name, "owners": super::c01::owners_json(&t.2), "outs": t.3, "real_key_prf_entries": oc.real_entries,
+                "tapes_per_input": oc.tapes, "executions": oc.executions, "groups_compared": oc.groups_compared}));
+        }
+    }
+    conformance(r);
+    r.finish(
+        "model_checking",
+        "bit family: x, x+y, x*y, x*x, (x*y)+z, (x*y)*z, x*y+x*z (thorough: dot/sum/slice/array products on bit[2]) x owner vectors x 8 output subsets x each observer; the tape = ALL assignments of ALL PRF entries under real keys (entries evaluated by two parties) and all share pairs of already-shared inputs; for every tape and every input assignment the real compiled graph is executed by three parties (states = executions, transitions = party runs) and the observer's view = every value it holds; for any two other-party input vectors with equal observer inputs and output the exact multisets of views over all tapes must coincide. 8-bit linear family (u8 x, x+y, x-y): entries the observer can compute are fixed to 3 patterns, the others enumerated over all 256 values, inputs from a small alphabet. distinct = analysed (family, owners, outputs) configurations",
+        true,
+        &[
+            "PRF idealised as a table of independent uniform entries per (key, counter, type); bound to the real code by conformance replay (table refilled from a real-PRF run reproduces every node value); freshness of counters is C04, PRF purity is C15",
+            "only bit-typed multiplicative protocols and 8-bit linear protocols are covered by tape enumeration; A2B/B2A, OT, truncation, sort and join need >= 2^24 tapes per message and are NOT covered (their send pattern is exercised by C02)",
+            "PRF keys are fixed distinct labels (a key is an input-independent uniform string)",
+        ],
+        &["evaluations", "states", "transitions", "configurations_with_masks", "view_groups_compared", "traces_validated_against_impl"],
+    )
+}
+
+/// Binding of the idealisation: run with the real AES PRF, record every PRF output, refill the table from the
+/// recording and re-run in scripted mode: every node value must coincide.
+fn conformance(r: &Report) {
+    struct Rec {
+        out: Vec<(usize, usize, EntryKey)>,
+    }
+    impl Oracle for Rec {
+        fn observe(&mut self, _p: usize, _i: usize, _v: &Value) {}
+    }
+    let _ = Rec { out: vec![] };
+    for f in families(false) {
+        let ctx = build_ctx(&f);
+        let owners: Vec<Owner> = (0..f.n_inputs).map(|i| Owner::P(i as u8 % 3)).collect();
+        let compiled = mpcx::compile(&ctx, &owners, &[0], &InlineMode::Simple).unwrap();
+        let plan = Plan::of_context(&compiled).unwrap();
+        let types = mpcx::input_types(&ctx);
+        let plain: Vec<Value> = types.iter().map(|t| Value::one_of_type(t.clone()).unwrap()).collect();
+        let pi = mpcx::party_inputs(&types, &owners, &plain, &mut || 0, &mut || 0);
+        // real run (real keys from the evaluators' PRNGs, real AES PRF)
+        let real = mpcx::eval_compiled_three(&plan, &pi, [21, 22, 23], &mut crate::exec::RealRandomness);
+        // scripted run: keys replayed as the real ones, PRF table filled from the recording
+        struct Replay<'a> {
+            real: &'a crate::exec::ThreeRun,
+        }
+        impl<'a> Oracle for Replay<'a> {
+            fn random(&mut self, p: usize, i: usize, _t: &Type) -> Option<Value> {
+                // before any Send the party's own draw
+                None.or_else(|| self.real.vals[p][i].val())
+            }
+            fn prf(&mut self, p: usize, i: usize, _k: &[u8], _iv: u64, _t: &Type) -> Option<Value> {
+                self.real.vals[p][i].val()
+            }
+        }
+        // note: Random nodes are overwritten by Send later in the real run only on NOP nodes, never on the Random node itself
+        let mut rp = Replay { real: &real };
+        let scripted = mpcx::eval_compiled_three(&plan, &pi, [1, 2, 3], &mut rp);
+        for p in 0..3 {
+            for i in 0..plan.nodes.len() {
+                if real.vals[p][i].val() != scripted.vals[p][i].val() {
+                    println!("MACHINERY-ERROR C03 conformance: scripted executor diverges from the real-PRF run at party {} node {}", p, i);
+                    std::process::exit(2);
+                }
+            }
+        }
+        r.count("traces_validated_against_impl", 1);
+    }
+}
+
+pub fn replay(_r: &Report, rec: &J) -> i32 {
+    let case = &rec["case"];
+    let name = case["family"].as_str().unwrap_or("");
+    let is8 = case["u8"].as_bool().unwrap_or(false);
+    let fams = if is8 { families_u8() } else { families(true) };
+    let f = match fams.iter().find(|f| f.name == name) {
+        Some(f) => f,
+        None => {
+            println!("unknown family {}", name);
+            return 2;
+        }
+    };
+    let owners = super::c01::owners_from_json(&case["owners"]);
+    let outs: Vec<u8> = case["outs"].as_array().unwrap().iter().map(|x| x.as_u64().unwrap() as u8).collect();
+    let obs = case["observer"].as_u64().unwrap_or(0) as usize;
+    let ctx = build_ctx(f);
+    let alpha: Vec<u128> = vec![0, 1, 127, 128, 255];
+    let oc = if is8 {
+        analyse(&ctx, &owners, &outs, 24, Some(&alpha), &[obs], Some(&[0x00, 0x5B, 0xFF]))
+    } else {
+        analyse(&ctx, &owners, &outs, 24, None, &[obs], None)
+    };
+    match oc.leak {
+        Some((_, m)) => {
+            println!("observed : {}", m);
+            println!("expected : identical view multisets");
+            1
+        }
+        None => {
+            println!("views identically distributed over {} executions (violation does not reproduce)", oc.executions);
+            0
+        }
+    }
 }
